@@ -27,6 +27,7 @@ func init() {
 			{ID: "C15.9", Desc: "temporary names are not shared between processes on one directory", Run: func(c *Ctx) { ruleTempNameOwnProcess(c, "C15.9") }, MinSites: 1},
 			{ID: "C15.10", Desc: "framing fields reach the serialiser as received: a chunked body is stored self-delimiting, so that a cut entry is noticed", Run: func(c *Ctx) { ruleC05_7(c); renameRule(c, "C05.7", "C15.10") }, MinSites: 1},
 			{ID: "C15.11", Desc: "the abandon gate waits for a publishing step that is running", Run: func(c *Ctx) { ruleGateLocksUnconditionally(c, "C15.11") }, MinSites: 1},
+			{ID: "C15.12", Desc: "a refused publishing step is reported as an error (the writer knows its value was not published and removes its working file)", Run: func(c *Ctx) { ruleGateRefusalIsAnError(c, "C15.12") }, MinSites: 1},
 		},
 	})
 }
